@@ -207,9 +207,10 @@ pub fn search(sub: &str, seed: u64, cases: u64, max_len: usize, f: &CaseFn) -> O
 pub fn enumerate<T: Sync>(
     sub: &str,
     items: &[T],
+    enc: &(dyn Fn(&T) -> Vec<u8> + Sync),
     f: &(dyn Fn(&T, &mut Collector) -> Result<(), Failure> + Sync),
 ) -> Outcome {
-    let results: Mutex<Vec<(Collector, Vec<Failure>)>> = Mutex::new(vec![]);
+    let results: Mutex<Vec<(Collector, Vec<(Failure, Vec<u8>)>)>> = Mutex::new(vec![]);
     let next = std::sync::atomic::AtomicUsize::new(0);
     let workers = WORKERS.min(items.len().max(1));
     std::thread::scope(|s| {
@@ -227,7 +228,7 @@ pub fn enumerate<T: Sync>(
                     c.eval();
                     if let Err(fl) = f(&items[i], &mut c) {
                         if fails.len() < 3 {
-                            fails.push(fl);
+                            fails.push((fl, enc(&items[i])));
                         }
                     }
                 }
@@ -239,8 +240,8 @@ pub fn enumerate<T: Sync>(
     out.exhaustive = true;
     for (c, fails) in results.into_inner().unwrap() {
         out.stats.merge(c);
-        for fl in fails {
-            out.found.push(Found { failure: fl, bytes: None, sub: sub.to_string() });
+        for (fl, b) in fails {
+            out.found.push(Found { failure: fl, bytes: Some(b), sub: sub.to_string() });
         }
     }
     out
@@ -340,7 +341,7 @@ impl Report {
         }
         // generator health: required classes
         let st = &self.outcome.stats;
-        for (c, min) in &self.required_classes {
+        for (c, min) in self.required_classes.iter().filter(|_| violations == 0) {
             let frac = st.class_count(c) as f64 / (st.evals.max(1) as f64);
             if frac < *min {
                 machinery += 1;
